@@ -92,6 +92,30 @@ def cholPrec (m : T Float) : T Float := Id.run do
   -- P = Xᵀ : P[i][j] = X[j][i]
   return ⟨[n, n], fun idx => ((Xf.getD (idx.getD 0 0) #[]).getD (idx.getD 1 0) 0)⟩
 
+def matG (m : Gmm Float) : Gmm Float :=
+  ⟨materialize m.weight, materialize m.mean, materialize m.cov, materialize m.pc, materialize m.logDet⟩
+
+/-- `GoodLead` (hypothesis of `gmmFit_fixLead`) checked on the executed shapes for EVERY leading index -/
+def allGood (ct : CovType) (cov : T Float) : Bool :=
+  let r := covRank ct
+  let dims := cov.rshape.drop (r + 1)
+  (List.range (prodList dims)).all fun o => goodLeadB r cov (unravel dims o)
+
+/-- the EM loop of `gmmFit` with the state stored as data after every step (`materialize` is the identity on
+valid indices); returns the model after `n + 1` iterations, its posterior, and whether `GoodLead` held for
+every iterate and every leading index -/
+def gmmRun (ct : CovType) (eps l2p : Float) (y init sal : T Float) (n : Nat) : Gmm Float × T Float × Bool := Id.run do
+  let mut m := matG (gmmMStep tinyT eps ct cholPrec y init sal)
+  let mut good := allGood ct m.cov
+  for _ in [0:n] do
+    let aff := materialize (gmmPredict tinyT l2p ct m y)
+    m := matG (gmmMStep tinyT eps ct cholPrec y aff sal)
+    good := good && allGood ct m.cov
+  return (m, materialize (gmmPredict tinyT l2p ct m y), good)
+
+def fmtGmm (m : Gmm Float) : String :=
+  fmtT m.weight ++ " | " ++ fmtT m.mean ++ " | " ++ fmtT m.cov ++ " | " ++ fmtT m.pc ++ " | " ++ fmtT m.logDet
+
 def opsTensor (a : Array String) : Option String :=
   match a[0]! with
   | "id" =>
@@ -193,6 +217,23 @@ def opsTensor (a : Array String) : Option String :=
       | "diagonal-noreshape" => diagonalPostInitNoReshape cov
       | _ => sphericalPostInit d cov
     some (fmtT pc ++ " | " ++ fmtT ld)
+  | "gmmfit" =>
+    -- gmmfit <full|diagonal|spherical> n eps log2pi Y INIT SAL  ->  weight | mean | cov | pc | logDet | posterior | good
+    -- (n + 1 iterations of GMMTrainer._fit, state stored after every step)
+    let ct := covTypeOf a[1]!
+    let (y, o) := parseT a 5
+    let (init, o) := parseT a o
+    let (sal, _) := parseT a o
+    let (m, post, good) := gmmRun ct (tokFloat a 3) (tokFloat a 4) y init sal (tokNat a 2)
+    some (fmtGmm m ++ " | " ++ fmtT post ++ " | 0 " ++ fmtFloats [if good then 1.0 else 0.0])
+  | "gmmfit-direct" =>
+    -- the recursive definition `gmmFit` itself (function-valued state: small n only)
+    let ct := covTypeOf a[1]!
+    let (y, o) := parseT a 5
+    let (init, o) := parseT a o
+    let (sal, _) := parseT a o
+    let m := gmmFit tinyT (tokFloat a 3) (tokFloat a 4) ct cholPrec y init sal (tokNat a 2)
+    some (fmtGmm m)
   | "vmffit" =>
     -- vmffit hasSal tiny minC maxC Y [S]  ->  mean | concentration
     let hasSal := tokNat a 1 == 1
